@@ -6,13 +6,12 @@
     Network/equivalent_sources.py                      (Thevenin / Norton parameter records)
     Circuit/impedance.py                               (sweep wrappers, DC resistance)
   Mathlib-free.  The model follows the code *as it is*:
-    * ideal voltage sources that are not directly between the two port nodes contribute
-      nothing to the admittance matrix (`np.isfinite` filter) — they are treated as OPEN;
-    * all-zero columns, then all-zero rows are deleted, but the index of `node1` is taken
-      from the index map of the *unpruned* network.
-  `np.linalg.inv` and `np.linalg.solve` are not modelled: they are parameters
-  (`inv`, `solve`); theorems constrain them by `M·(inv M) = 1` / `A·x = b`, the driver
-  passes an exact elimination whose results it checks before use.
+    * the system solved is the full MNA matrix `[[Y, B], [Bᵀ, 0]]` of the re-referenced network
+      (ideal voltage sources enter through their constraint rows: shorted);
+    * unknowns whose *column* is all zero are dropped (rows by the same mask), the index of
+      `node1` is its position among the kept unknowns, the right-hand side is a unit vector.
+  `np.linalg.solve` is not modelled: it is a parameter (`solve`); theorems constrain it by
+  `A·x = b` (`SolveOK`), the driver passes an exact elimination whose results it checks.
 -/
 import CC.Model.MNA
 namespace CC
@@ -43,95 +42,98 @@ def Net.removeElement (N : Net L K) (id : String) : Except Err (Net L K) :=
     N'.check
     pure N'
 
-/-! ### node_analysis.py:81-102 -/
+/-! ### node_analysis.py:81-102 (after fix e030c44) -/
 
 /-- `node_admittance_matrix(network)` with the default (alphabetic) node mapper -/
 def Net.nodeAdmittance (N : Net L K) : List (List K) :=
   N.nodes.map fun i => N.nodes.map fun j => N.Yentry i j
 
-/-- `np.delete(Y, np.where(~Y.any(axis=0))[0], axis=1)`: drop every all-zero column.
-The number of columns is the number of node labels `n` (a matrix without rows has
-no non-zero column). -/
-def pruneCols (n : Nat) (M : List (List K)) : List (List K) :=
-  let keep := (List.range n).filter fun c => M.any fun r => decide (r.getD c 0 ≠ 0)
-  M.map fun r => keep.map fun c => r.getD c 0
+/-- `keep = A.any(axis=0)`: which columns of the `n × n` matrix have a non-zero entry -/
+def keepMask (n : Nat) (A : List (List K)) : List Bool :=
+  (List.range n).map fun c => A.any fun r => decide (r.getD c 0 ≠ 0)
 
-/-- `np.delete(Y, np.where(~Y.any(axis=1))[0], axis=0)`: drop every all-zero row -/
-def pruneRows (M : List (List K)) : List (List K) :=
-  M.filter fun r => r.any fun x => decide (x ≠ 0)
+/-- boolean-mask selection `x[keep]` -/
+def selectL {α : Type} : List Bool → List α → List α
+  | true :: ks, x :: xs => x :: selectL ks xs
+  | false :: ks, _ :: xs => selectL ks xs
+  | _, _ => []
 
-/-- what `open_circuit_impedance` has computed when it reaches `np.linalg.inv` -/
+/-- `A[np.ix_(keep, keep)]` -/
+def subMatrix (keep : List Bool) (A : List (List K)) : List (List K) :=
+  (selectL keep A).map (selectL keep)
+
+/-- `np.count_nonzero(keep[:i])` -/
+def countBefore (keep : List Bool) (i : Nat) : Nat := ((keep.take i).filter id).length
+
+/-- the vector `unit_current`: zeros of length `m` with a one at position `i` -/
+def unitVec (m i : Nat) : List K := (List.range m).map fun k => if k = i then 1 else 0
+
+/-- what `open_circuit_impedance` has computed when it reaches `np.linalg.solve` -/
 inductive PortPre (L K : Type) where
   /-- one of the two early `return 0` -/
   | early
-  /-- the re-referenced network, the pruned matrix handed to `inv`, and the first port node
-  (possibly swapped) whose *unpruned* index is used afterwards -/
-  | mat (N' : Net L K) (Y : List (List K)) (node1 : L)
+  /-- the re-referenced network, the column mask, the pruned MNA matrix, the right-hand side
+  and the index `i1` of the first port node (possibly swapped) among the kept unknowns -/
+  | sys (N' : Net L K) (keep : List Bool) (A : List (List K)) (e : List K) (i1 : Nat)
 
-/-- node_analysis.py:82-91 -/
+/-- node_analysis.py:89-94 on the re-referenced network `N'` for the (possibly swapped) first
+port node `a`: `KeyError` when `a` is not a label, `IndexError ↦ KeyError` when
+`unit_current[i1] = 1` falls beyond the kept unknowns -/
+def Net.portSys (N' : Net L K) (a : L) : Except Err (PortPre L K) :=
+  match idxOf? a N'.nodes with
+  | none => .error .keyError
+  | some i =>
+    if countBefore (keepMask N'.mnaA.length N'.mnaA) i
+        < (subMatrix (keepMask N'.mnaA.length N'.mnaA) N'.mnaA).length then
+      .ok (.sys N' (keepMask N'.mnaA.length N'.mnaA)
+        (subMatrix (keepMask N'.mnaA.length N'.mnaA) N'.mnaA)
+        (unitVec (subMatrix (keepMask N'.mnaA.length N'.mnaA) N'.mnaA).length
+          (countBefore (keepMask N'.mnaA.length N'.mnaA) i))
+        (countBefore (keepMask N'.mnaA.length N'.mnaA) i))
+    else .error .keyError
+
+/-- node_analysis.py:82-88, then `portSys`.  `FloatingGroundNode` comes from re-referencing. -/
 def Net.portPre (N : Net L K) (n1 n2 : L) : Except Err (PortPre L K) :=
   if n1 = n2 then .ok .early
   else if (N.branchesBetween n1 n2).any (·.e.isIdealVS) then .ok .early
   else
-    let a := if n1 = N.zero then n2 else n1      -- `node1, node2 = node2, node1`
-    let b := if n1 = N.zero then n1 else n2
-    match N.switchGround b with
+    -- `node1, node2 = node2, node1` when `node1` is the reference
+    match N.switchGround (if n1 = N.zero then n1 else n2) with
     | .error e => .error e
-    | .ok N' =>
-      let Y := N'.nodeAdmittance
-      .ok (.mat N' (pruneRows (pruneCols N'.nodes.length Y)) a)
+    | .ok N' => N'.portSys (if n1 = N.zero then n2 else n1)
 
-/-- `Z[i1][i1]` with the index of the unpruned map; `IndexError` ↦ `keyError` -/
-def diagAt (Z : List (List K)) (i : Nat) : Except Err K :=
-  match Z[i]? with
-  | none => .error .keyError
-  | some r => match r[i]? with
-    | none => .error .keyError
-    | some z => .ok z
-
-/-- is the matrix square (what `np.linalg.inv` demands before anything else)? -/
-def isSquare (M : List (List K)) : Bool := M.all fun r => r.length == M.length
-
-/-- `open_circuit_impedance(network, node1, node2)`.  `inv M = none` stands for
-`numpy.linalg.LinAlgError` (singular or non-square). -/
-def Net.openCircuitImpedance (inv : List (List K) → Option (List (List K)))
+/-- `open_circuit_impedance(network, node1, node2)`.  `solve A b = none` stands for
+`numpy.linalg.LinAlgError` (singular matrix). -/
+def Net.openCircuitImpedance (solve : List (List K) → List K → Option (List K))
     (N : Net L K) (n1 n2 : L) : Except Err K :=
   match N.portPre n1 n2 with
   | .error e => .error e
   | .ok .early => .ok 0
-  | .ok (.mat N' Y a) =>
-    if !isSquare Y then .error .singular else
-    match inv Y with
+  | .ok (.sys _ _ A e i1) =>
+    match solve A e with
     | none => .error .singular
-    | some Z =>
-      match idxOf? a N'.nodes with
+    | some x =>
+      match x[i1]? with
       | none => .error .keyError
-      | some i => diagAt Z i
+      | some z => .ok z
 
 /-- `element_impedance(network, element)`: arguments are evaluated left to right —
 `remove_element` first, then `network[element].node1/.node2` on the original network -/
-def Net.elementImpedance (inv : List (List K) → Option (List (List K)))
+def Net.elementImpedance (solve : List (List K) → List K → Option (List K))
     (N : Net L K) (id : String) : Except Err K :=
   match N.removeElement id with
   | .error e => .error e
   | .ok N' =>
     match N.get? id with
     | none => .error .keyError
-    | some b => N'.openCircuitImpedance inv b.n1 b.n2
+    | some b => N'.openCircuitImpedance solve b.n1 b.n2
 
-/-! ### what is assumed of `np.linalg.inv` -/
+/-! ### what is assumed of `np.linalg.solve` -/
 
-/-- column `j` of a matrix given by rows -/
-def colL (M : List (List K)) (j : Nat) : List K := M.map fun r => r.getD j 0
-
-/-- `Z` is a right inverse of the square matrix `Y` -/
-def IsInverseL (Y Z : List (List K)) : Prop :=
-  Z.length = Y.length ∧
-  ∀ i j, i < Y.length → j < Y.length → dotL (Y.getD i []) (colL Z j) = if i = j then 1 else 0
-
-/-- the certificate contract: whatever `inv` returns is an inverse -/
-def InvOK (inv : List (List K) → Option (List (List K))) : Prop :=
-  ∀ Y Z, inv Y = some Z → IsInverseL Y Z
+/-- the certificate contract: whatever `solve` returns has the length of the right-hand side
+and solves the system -/
+def SolveOK (solve : List (List K) → List K → Option (List K)) : Prop :=
+  ∀ A b x, solve A b = some x → x.length = b.length ∧ matVec A x = b
 
 /-! ### bias_point_analysis.py:11-25, 44-55 -/
 
@@ -157,10 +159,9 @@ def Net.openCircuitVoltage (solve : List (List K) → List K → Option (List K)
 /-- `short_circuit_current`: `V / Z`.  For `node1 == node2` both are the Python integer `0`
 (`ZeroDivisionError`); otherwise `V` is a numpy scalar and a zero `Z` gives `inf`/`nan`
 without an exception — reported as `NonFinite`. -/
-def Net.shortCircuitCurrent (inv : List (List K) → Option (List (List K)))
-    (solve : List (List K) → List K → Option (List K))
+def Net.shortCircuitCurrent (solve : List (List K) → List K → Option (List K))
     (N : Net L K) (n1 n2 : L) : Except Err K := do
-  let Z ← N.openCircuitImpedance inv n1 n2
+  let Z ← N.openCircuitImpedance solve n1 n2
   let V ← N.openCircuitVoltage solve n1 n2
   if n1 = n2 then .error .zeroDivision
   else if Z = 0 then .error (.other "NonFinite")
@@ -178,11 +179,10 @@ structure NortonEq (K : Type) where
   Y : K
 
 /-- `TheveninEquivalentSource.__init__`: `U` first, then `Z` -/
-def Net.theveninEquivalent (inv : List (List K) → Option (List (List K)))
-    (solve : List (List K) → List K → Option (List K))
+def Net.theveninEquivalent (solve : List (List K) → List K → Option (List K))
     (N : Net L K) (n1 n2 : L) : Except Err (TheveninEq K) := do
   let U ← N.openCircuitVoltage solve n1 n2
-  let Z ← N.openCircuitImpedance inv n1 n2
+  let Z ← N.openCircuitImpedance solve n1 n2
   pure ⟨U, Z⟩
 
 /-- did `open_circuit_impedance` take one of its early returns (Python integer `0`)? -/
@@ -191,10 +191,9 @@ def Net.portIsEarly (N : Net L K) (n1 n2 : L) : Bool :=
 
 /-- `NortenEquivalentSource.__init__`: `I = U/Z`, `Y = 1/Z`.  With the integer `0` of an early
 return `1/Z` raises `ZeroDivisionError`; a computed zero gives `inf` (`NonFinite`). -/
-def Net.nortonEquivalent (inv : List (List K) → Option (List (List K)))
-    (solve : List (List K) → List K → Option (List K))
+def Net.nortonEquivalent (solve : List (List K) → List K → Option (List K))
     (N : Net L K) (n1 n2 : L) : Except Err (NortonEq K) := do
-  let t ← N.theveninEquivalent inv solve n1 n2
+  let t ← N.theveninEquivalent solve n1 n2
   if N.portIsEarly n1 n2 then .error .zeroDivision
   else if t.Z = 0 then .error (.other "NonFinite")
   else pure ⟨t.U / t.Z, 1 / t.Z⟩
